@@ -60,6 +60,10 @@ def assignLocals : Int → List (Var × Int) → List Int × Int
       let r := assignLocals b vs
       (-b :: r.1, r.2)
 
+/-- the list the second loop walks: `fn->locals = body ++ params` with the `var->offset` the first loop left -/
+def loopInput (body params : List Var) : List (Var × Int) :=
+  (body.map fun v => (v, (0 : Int))) ++ params.zip (assignParams FRAME_TOP0 params).1
+
 structure FrameLayout where
   /-- `var->offset` for `body ++ params` (the order of `fn->locals`) -/
   offsets : List Int
@@ -70,14 +74,36 @@ structure FrameLayout where
     return-buffer pointer first if there is one), `body` = the other locals, most recently created first, so that
     `fn->locals = body ++ params` -/
 def assignLvarOffsets (body params : List Var) : FrameLayout :=
-  let p := assignParams FRAME_TOP0 params
-  let l := assignLocals FRAME_BOTTOM0 ((body.map fun v => (v, (0 : Int))) ++ params.zip p.1)
+  let l := assignLocals FRAME_BOTTOM0 (loopInput body params)
   { offsets := l.1, stackSize := stackSize l.2 }
 
 /-- the alignment the second loop gives a local -/
 def Var.frameAlign (v : Var) : Int := localAlign v.isArray v.size v.align
 
-/-- a variable of `fn->locals` that the second loop places (not a stack parameter) -/
-def Var.inFrame (v : Var) (isParam : Bool) : Bool := !(isParam && v.byStack)
+/-! ### the result as a list of objects (what the theorems talk about) -/
+
+/-- one object of the frame: `[rbp + off, rbp + off + size)` -/
+structure Slot where
+  off : Int
+  size : Int
+  /-- alignment the object is entitled to: `frameAlign` for an object of the frame, 8 for a stack-passed parameter -/
+  align : Int
+  /-- passed on the stack by the caller (lives above the return address); `var->offset != 0` before the second loop -/
+  stack : Bool
+  deriving DecidableEq, Repr
+
+/-- two objects do not overlap -/
+def Slot.Disjoint (a b : Slot) : Prop := a.off + a.size ≤ b.off ∨ b.off + b.size ≤ a.off
+
+instance (a b : Slot) : Decidable (Slot.Disjoint a b) := by unfold Slot.Disjoint; infer_instance
+
+/-- entries of the second loop paired with the offsets it produced -/
+def slotsOf : List (Var × Int) → List Int → List Slot
+  | (v, off) :: l, o :: os => ⟨o, v.size, if off ≠ 0 then 8 else v.frameAlign, off ≠ 0⟩ :: slotsOf l os
+  | _, _ => []
+
+/-- all objects of a function's frame, in the order of `fn->locals` -/
+def frameSlots (body params : List Var) : List Slot :=
+  slotsOf (loopInput body params) (assignLvarOffsets body params).offsets
 
 end ChibiVerif.Frame
